@@ -8,6 +8,7 @@ import (
 	"golang.org/x/tools/go/ssa"
 	"os"
 	"path/filepath"
+	"regexp"
 	"sort"
 	"strconv"
 	"strings"
@@ -374,6 +375,39 @@ func runCheck(id, repo, verif, tier string, seed int, freeze bool, keep string, 
 		fmt.Printf("VIOLATION property=%s replay=%s obligation=%s status=undecided no-failing-input-found\n", id, path, r.O.Name)
 		fmt.Println("  reason:", e)
 	}
+	// thorough tier: the replay drivers of the functions under check are run against the unchanged tree; none of the
+	// recorded failure scenarios may reproduce (a bounded, concrete supplement - reported separately, never counted
+	// among the discharged obligations)
+	driversRun, driversClean := 0, 0
+	if tier == "thorough" {
+		var oblRe = regexp.MustCompile(`Contains\("\{\{\.Obligation\}\}", "([^"]+)"\)`)
+		for _, k := range append(append([]string{}, keys...), "discipline/guards") {
+			if k == "discipline/guards" && !contains(cfg.Disciplines, "guards") {
+				continue
+			}
+			tb, err := os.ReadFile(filepath.Join(verif, "replay", sanitize(k)+".go.tmpl"))
+			if err != nil {
+				continue
+			}
+			variants := []string{k + "/self-check"}
+			for _, m := range oblRe.FindAllStringSubmatch(string(tb), -1) {
+				variants = append(variants, k+"/"+m[1])
+			}
+			for _, v := range variants {
+				r := &oblResult{O: &Obl{Name: v, Kind: "replay-self-check", Fn: k, Src: "the failure scenario of this driver does not reproduce on the current tree"}, R: SolveResult{Status: "unknown"}}
+				verdict, info := tryReplay(d, repo, r, nil)
+				driversRun++
+				if verdict == "reproduced" {
+					violations++
+					r.R.Raw = fmt.Sprint(info["output"])
+					path := writeReplay(d, replayDir, id, r, repo)
+					fmt.Printf("VIOLATION property=%s replay=%s obligation=replay-self-check/%s status=reproduced\n", id, path, v)
+				} else {
+					driversClean++
+				}
+			}
+		}
+	}
 	// samples: a few obligations written out
 	for i, ev := range evObls {
 		if i%max(1, len(evObls)/8) == 0 && len(samples) < 10 {
@@ -426,6 +460,8 @@ func runCheck(id, repo, verif, tier string, seed int, freeze bool, keep string, 
 			"solver_wins":              wins,
 			"known_findings":           knownPrinted,
 			"not_decided":              cfg.NotDecided,
+			"replay_drivers_run":       driversRun,
+			"replay_drivers_clean":     driversClean,
 			"missing_expected":         missing,
 			"engine_errors":            engineErrs,
 			"timeout_ms":               timeout,
